@@ -243,6 +243,9 @@ func path(v ssa.Value, d int) string {
 				if v := uniqueStore(al); v != nil {
 					return path(v, d+1)
 				}
+				if v := reachingStore(x, al); v != nil {
+					return path(v, d+1)
+				}
 			}
 			return deref(path(x.X, d+1))
 		case token.ARROW:
@@ -345,6 +348,142 @@ func narrowArith(x *ssa.BinOp) string {
 // written by exactly one whole-value store and is otherwise only loaded from
 // or has its fields read (so every load observes that value or the zero
 // value). Struct literals assembled field by field are not resolved.
+var reachingCache = map[*ssa.UnOp]ssa.Value{}
+var reachingDone = map[*ssa.UnOp]bool{}
+
+// reachingStore resolves a load of an address-taken local that is assigned more than once (for instance
+// because a closure reads it) to the value of the one store that reaches it: the store dominates the load
+// and no other store to the local lies on a path between them. Locals whose address escapes, or that a
+// closure writes, are not resolved.
+func reachingStore(load *ssa.UnOp, al *ssa.Alloc) ssa.Value {
+	labelMu.Lock()
+	if reachingDone[load] {
+		v := reachingCache[load]
+		labelMu.Unlock()
+		return v
+	}
+	labelMu.Unlock()
+	v := reachingStore1(load, al)
+	labelMu.Lock()
+	reachingDone[load] = true
+	reachingCache[load] = v
+	labelMu.Unlock()
+	return v
+}
+
+func reachingStore1(load *ssa.UnOp, al *ssa.Alloc) ssa.Value {
+	refs := al.Referrers()
+	if refs == nil {
+		return nil
+	}
+	var stores []*ssa.Store
+	for _, r := range *refs {
+		switch x := r.(type) {
+		case *ssa.Store:
+			if x.Addr != ssa.Value(al) {
+				return nil
+			}
+			stores = append(stores, x)
+		case *ssa.UnOp, *ssa.DebugRef:
+		case *ssa.MakeClosure:
+			fn, _ := x.Fn.(*ssa.Function)
+			if fn == nil {
+				return nil
+			}
+			for i, b := range x.Bindings {
+				if b != ssa.Value(al) || i >= len(fn.FreeVars) {
+					continue
+				}
+				if fr := fn.FreeVars[i].Referrers(); fr != nil {
+					for _, rr := range *fr {
+						if st, ok := rr.(*ssa.Store); ok && st.Addr == ssa.Value(fn.FreeVars[i]) {
+							return nil // the closure assigns it
+						}
+						if _, ok := rr.(*ssa.MakeClosure); ok {
+							return nil
+						}
+					}
+				}
+			}
+		default:
+			return nil
+		}
+	}
+	if len(stores) < 2 || load.Parent() != al.Parent() {
+		return nil
+	}
+	var pick *ssa.Store
+	for _, st := range stores {
+		if st.Parent() != load.Parent() || !sameFuncDominates(st, load) {
+			continue
+		}
+		clean := true
+		for _, t := range stores {
+			if t != st && instrReaches(st, t) && instrReaches(t, load) {
+				clean = false
+			}
+		}
+		if clean {
+			if pick != nil {
+				return nil
+			}
+			pick = st
+		}
+	}
+	if pick == nil {
+		return nil
+	}
+	if _, isAlloc := pick.Val.(*ssa.Alloc); isAlloc {
+		return nil
+	}
+	return pick.Val
+}
+
+func sameFuncDominates(a, b ssa.Instruction) bool {
+	ba, bb := a.Block(), b.Block()
+	if ba == bb {
+		for _, in := range ba.Instrs {
+			if in == a {
+				return true
+			}
+			if in == b {
+				return false
+			}
+		}
+		return false
+	}
+	return ba.Dominates(bb)
+}
+
+// instrReaches: some path inside the function leads from just after a to b.
+func instrReaches(a, b ssa.Instruction) bool {
+	ba := a.Block()
+	after := false
+	for _, in := range ba.Instrs {
+		if after && in == b {
+			return true
+		}
+		if in == a {
+			after = true
+		}
+	}
+	seen := map[*ssa.BasicBlock]bool{}
+	work := append([]*ssa.BasicBlock{}, ba.Succs...)
+	for len(work) > 0 {
+		blk := work[len(work)-1]
+		work = work[:len(work)-1]
+		if seen[blk] {
+			continue
+		}
+		seen[blk] = true
+		if blk == b.Block() {
+			return true
+		}
+		work = append(work, blk.Succs...)
+	}
+	return false
+}
+
 func uniqueStore(al *ssa.Alloc) ssa.Value {
 	refs := al.Referrers()
 	if refs == nil {
